@@ -57,7 +57,7 @@ def _env(schema):
             e["h%d" % lv] = block("heading", level=lv)
     if "image" in nodes:
         e["img"] = block("image", src="i.png")
-    for m in ("em", "strong", "code", "m0", "m1", "m2", "m3"):
+    for m in ("em", "strong", "code", "m0", "m1", "m2", "m3", "comment"):
         if m in marks:
             try:
                 e[m] = markb(m)
@@ -139,7 +139,11 @@ MX_DOCS = [
     'doc(p(m1("a"), m1(m3("b")), "c"), plain(m1("d"), pic()))',
 ]
 
-DOCS = {"list": LIST_DOCS, "basic": BASIC_DOCS, "strict": STRICT_DOCS, "title": TITLE_DOCS, "fixed": FIXED_DOCS,
+NI_DOCS = [
+    'doc(p(a()(comment("ab")), "c"), p(em(a()(comment("d")))))',
+    'doc(p("x", a()(comment("y"))), p(comment("z"), a()("w")))',
+]
+DOCS = {"ni": NI_DOCS, "list": LIST_DOCS, "basic": BASIC_DOCS, "strict": STRICT_DOCS, "title": TITLE_DOCS, "fixed": FIXED_DOCS,
         "docmarks": DOCMARKS_DOCS, "iso": ISO_DOCS, "table": TABLE_DOCS}
 _PAIR = {"mx1": ("m1", "m3"), "mx2": ("m1", "m2"), "mx3": ("m1", "m2"), "mx4": ("m1", "m2"), "mx5": ("m0", "m3"), "mx6": ("m0", "m1")}
 for _n, (_x, _y) in _PAIR.items():
@@ -167,6 +171,7 @@ SLICES = {
 }
 SLICES["basic"] = [s for s in SLICES["list"] if "ul(" not in s[0]]
 SLICES["docmarks"] = SLICES["list"]
+SLICES["ni"] = SLICES["list"]
 SLICES["iso"] = SLICES["list"] + [('doc(iso(p("i")))', 0, 5), ('doc(iso(p("i")), p("j"))', 2, 7), ('doc(iso(p("i")))', 1, 4)]
 SLICES["table"] = SLICES["list"] + [('doc(table(row(cell(p("i")), cell(p("j")))))', 3, 12),
                                     ('doc(table(row(cell(p("i")))))', 0, 9), ('doc(table(row(cell(p("i")))))', 2, 7)]
